@@ -91,6 +91,7 @@ def candidates():
         ("images", lambda: ((torch.arange(96.0).reshape(2, 3, 4, 4) / 96.0, (torch.arange(96.0).reshape(2, 3, 4, 4) / 96.0).flip(0)), {})),
         ("waveforms", lambda: ((torch.arange(16.0).reshape(2, 8) / 16.0, torch.arange(16.0).reshape(2, 8).flip(1) / 8.0), {})),
         ("obs-2d", lambda: ((t([[0.9, 0.5], [0.3, 0.5], [0.2, 0.1], [0.7, 0.4]]),), {})),
+        ("values-weighted", lambda: ((t(p4),), {"weight": t([1.0, 2.0, 0.5, 1.0])})),
         ("values-1d", lambda: ((t(p4),), {})),
         ("values-2d", lambda: ((t([p4, p4]),), {})),
         ("strings", lambda: ((["hello world foo", "the cat"], ["hello there foo", "the cat sat"]), {})),
